@@ -36,13 +36,13 @@ FIXED = {
         "ARGS": [["(", "EXPR", ",", "EXPR", ")"], ["(", "EXPR", ")"], ["(", ")"], []],
         "TAG": [[":", "WORD"], []],
         "EXPR": [["TERM", "+", "EXPR"], ["TERM"]],
-        "TERM": [["NUM"], ["WORD"], ["[", "EXPR", "]"]],
+        "TERM": [["NUM"], ["WORD"], ["[", "EXPR", "]"], ["MLSTR"]],
     },
     "start": "E",
-    "terms": ["IF", "DO", "END_KW", ";", "WORD", "(", ")", ",", ":", "+", "NUM", "[", "]"],
+    "terms": ["IF", "DO", "END_KW", ";", "WORD", "(", ")", ",", ":", "+", "NUM", "[", "]", "MLSTR"],
 }
 FIXED_KINDS = {"IF": "KW_if", "DO": "KW_do", "END_KW": "KW_end", ";": "SEMI", "WORD": "WORD", "(": "LPAR", ")": "RPAR",
-               ",": "COMMA", ":": "COLON", "+": "PLUS", "NUM": "NUM", "[": "LBR", "]": "RBR"}
+               ",": "COMMA", ":": "COLON", "+": "PLUS", "NUM": "NUM", "[": "LBR", "]": "RBR", "MLSTR": "MLSTR"}
 
 
 # characters no token pattern matches: punctuation, control characters, an unassigned and a private-use code point
@@ -173,6 +173,19 @@ def check_token_stream(parser, text, src, as_list):
         if src_piece is None:
             f.append(("token_end_outside_text", f"{t}"))
             break
+        if t.name == "MLSTR":
+            # the other span token type (not skipped): region from opener to closer, value = the text between them
+            q3 = gk.Q3
+            if not (src_piece.startswith(q3) and src_piece.endswith(q3) and len(src_piece) >= 6):
+                f.append(("span_token_region_wrong", f"{t}: slice {src_piece!r}"))
+                break
+            if s[0] != e[0]:
+                info.add("multi_line_span_token")
+                info.add("multi_line_terminal_token")
+            for ln in range(s[0], e[0] + 1):
+                covered_until[ln] = e[1] if ln == e[0] else len(eff[ln - 1]) + 1
+            prev_end = e
+            continue
         if s[0] == e[0]:
             if t.name not in ("COMMENT",) or not src_piece.startswith("/*"):
                 if src_piece != t.value:
@@ -323,7 +336,28 @@ def evaluate(case):
         for b, d in ff:
             f.append((b, f"text={text!r} as_list={as_list}: {d}"))
         classes |= inf
-        kind, res, stt = parse_guarded(L, parser, src, len(tokens), do_cleanup=False)
+        psrc = src
+        ml = [k for k in range(len(tokens)) if pos[k][0][0] != pos[k][1][0]]
+        if as_list and ml:
+            # ... and precisely while the outer text is inside a multi-line terminal token (its second line)
+            def _lines2(lines=list(src), at=pos[ml[0]][0][0]):
+                for i, ln in enumerate(lines):
+                    if i == at:
+                        parse_guarded(L, parser, "w /* q\n r */ (7) ; zz", 8, budget=20000, do_cleanup=False)
+                    yield ln
+            psrc = _lines2()
+            classes.add("nested_parse_inside_a_multi_line_token")
+        elif as_list and inp.get("poison") is not None and inp["poison"] % 2 == 0:
+            # the text arrives as a lazy iterable of lines whose producer, half-way, lets the same parser (and its
+            # tokenizer) work on another text
+            def _lines(lines=list(src), at=inp["poison"]):
+                for i, ln in enumerate(lines):
+                    if i == (at // 2) % max(1, len(lines)):
+                        parse_guarded(L, parser, "w /* q\n r */ (7) ; zz", 8, budget=20000, do_cleanup=False)
+                    yield ln
+            psrc = _lines()
+            classes.add("nested_parse_while_lines_are_consumed")
+        kind, res, stt = parse_guarded(L, parser, psrc, len(tokens), do_cleanup=False)
         if kind == "tree":
             ff, inf2 = check_positions(res, tokens, pos, text, src, nonterms)
             for b, d in ff:
@@ -412,7 +446,7 @@ def st_case(draw, max_tokens=14):
         g = draw(st_nullable_prefix_grammar())
         G = gk.Grammar(g["prods"], g["start"], set(g["terms"]))
         inputs = draw(st_in(G, g, draw(st.integers(2, 5)), max_tokens=max_tokens))
-        case = {"grammar": "random", "g": g, "pool": draw(st.integers(0, 3)), "perm": draw(st.permutations(list(range(6)))),
+        case = {"grammar": "random", "g": g, "pool": draw(st.integers(0, 4)), "perm": draw(st.permutations(list(range(6)))),
                 "syn": draw(st.booleans()), "kw": False, "inputs": inputs, "smart": draw(st.booleans())}
         for inp in case["inputs"]:
             if draw(st.integers(0, 7)) == 0:
